@@ -6,6 +6,7 @@ mod c16;
 mod c17;
 mod conv;
 mod dev;
+mod dump;
 mod page;
 mod prog;
 mod simple;
@@ -34,6 +35,7 @@ fn main() {
         "c15-run" => c15::run(&arg(&args, "--progs").expect("--progs"), arg(&args, "--allcuts").is_some(), &out),
         "c16-run" => c16::run(&arg(&args, "--progs").expect("--progs"), seed, argn(&args, "--scheds", 6) as usize, &out),
         "c17-run" => c17::run(&arg(&args, "--progs").expect("--progs"), argn(&args, "--depth", 2) as usize, &out),
+        "lib-dump" => dump::run(&arg(&args, "--file").expect("--file"), &out),
         "e57-run" => prog::run_programs(&arg(&args, "--progs").expect("--progs"), &out),
         "simple-run" => simple::run(&arg(&args, "--progs").expect("--progs"), &out),
         "page-replay-r" => page::replay_r(&arg(&args, "--edges").expect("--edges"), &out),
